@@ -146,6 +146,13 @@ def gen(rng, tier, index):
     plan["solver"] = gen_solver(rng, name, n, float(dt), tight=False, buggify=bool(rng.random() < 0.5), contacts=contact)
     if name == "BackwardEuler" and n >= 2 and rng.random() < 0.4:
         plan["fault"] = {"kind": "F1", "step": int(rng.integers(1, n + 1)), "occ": 1}
+    if contact and name in ("Moreau", "Rattle", "BackwardEuler") and n >= 3 and plan.get("fault") is None and rng.random() < 0.5:
+        # F2: the contact fixed point of a few steps fails while the run is told to go on (continue_with_unconverged):
+        # the run is NOT truncated, so the whole contract applies to what comes back
+        site = {"Moreau": "moreau.fp", "Rattle": str(rng.choice(["rattle.fp1", "rattle.fp2"])), "BackwardEuler": "be.fp"}[name]
+        plan["fault"] = {"kind": "F2c", "site": site, "steps": sorted({int(x) for x in rng.integers(1, n + 1, size=3)})}
+        plan["solver"]["options"]["continue_with_unconverged"] = True
+        plan["solver"]["options"]["fixed_point_max_iter"] = 30
     if name in ("ScipyIVP", "ScipyDAE") and n >= 3 and rng.random() < 0.35:
         plan["fault"] = {"kind": "F4", "frac": float(rng.uniform(0.2, 0.8))}
     return plan
@@ -235,6 +242,8 @@ def execute(plan, out, log):
     f = plan.get("fault")
     if f and f["kind"] == "F1":
         faults.append(("fsolve", f["step"], f.get("occ", 1)))
+    if f and f["kind"] == "F2c":
+        faults.extend((f["site"], k, 1) for k in f["steps"])
     sim = Sim(log, faults=faults)
     truncated = False
     with sim.installed():
@@ -283,8 +292,13 @@ def execute(plan, out, log):
             if backend_said_so and not (f and f["kind"] == "F4"):
                 out["probes"]["truncated_organically"] += 1
             truncated = bool(sim.failed_instances()) or bool(f and f["kind"] == "F4") or backend_said_so
+            if f and f["kind"] == "F2c":
+                # continue mode: a failed iteration does not truncate the run (unless the solver raised, handled above)
+                truncated = len(sol.t) < plan["n"] + 1 and any(i[0] == "fsolve" for i in sim.failed_instances())
+                if sim.fired:
+                    out["probes"]["continued_after_forced_fixed_point_failure"] += 1
     if sim.fired:
-        out["faults"]["F1_newton_failure"] += len(sim.fired)
+        out["faults"]["F2_fixed_point_failure" if (f and f["kind"] == "F2c") else "F1_newton_failure"] += len(sim.fired)
     if truncated:
         out["probes"]["truncated_by_fault" if f else "truncated_organically"] += 1
     out["probes"][f"ran_{name}"] += 1
